@@ -56,34 +56,86 @@ Proof. exact BuildLogProofs.C08_torn. Qed.
 Print Assumptions C08_torn.
 
 (* ------------------------------------------------------------------------------------------ *)
-(* A later session appends to the torn file (k >= 15, so no new signature): the torn fragment and
-   the first appended record form ONE line, which always yields exactly one entry
-   ([merged_line_entry], by the number of tabs in the fragment); all other records are intact. *)
-Theorem C08_append_after_tear : forall (es : list entry) (k : nat) (e' : entry) (tl : list entry),
+(* A later session appends to the torn file (k >= 15).  FIXED code (OpenForWriteIfNeeded reads the
+   last byte and writes one '\n' first when it is not '\n'): the torn fragment becomes a line of its
+   own, read as [fragment_entry]: nothing unless it has four tabs; all appended records intact. *)
+Theorem C08_append_after_tear : forall (es : list entry) (k : nat) (es' : list entry),
   Forall wf_entry es -> Forall (fits load_buf_size) es ->
-  Forall wf_entry (e' :: tl) -> Forall (fits load_buf_size) tl ->
-  (length (torn_fragment k es) + length (render_entry e') <= load_buf_size)%nat ->
+  Forall wf_entry es' -> Forall (fits load_buf_size) es' ->
   (length log_header <= k)%nat ->
-  let ents := complete_prefix k es ++ merged_line_entry (torn_fragment k es) e' ++ tl in
-  load_log (record_append (firstn k (log_header ++ concat (map render_entry es))) (e' :: tl)) =
+  let ents := complete_prefix k es ++ fragment_entry (torn_fragment k es) ++ es' in
+  load_log (record_append (firstn k (log_header ++ concat (map render_entry es))) es') =
   LOk (last_wins ents)
       (needs_recompaction_of (N.of_nat (length (last_wins ents))) (N.of_nat (length ents))).
 Proof. exact BuildLogProofs.C08_append_after_tear. Qed.
 Print Assumptions C08_append_after_tear.
 
-(* the merged line is always a record: it parses to the single element of [merged_line_entry] *)
+(* fewer than four tabs in the fragment: the line is skipped *)
+Theorem C08_fragment_few_tabs : forall frag : bytes,
+  (count_tabs frag < 4)%nat -> fragment_entry frag = [].
+Proof. exact fragment_entry_few_tabs. Qed.
+Print Assumptions C08_fragment_few_tabs.
+
+(* a fragment of a well-formed record: skipped, or (cut inside the hash field) the record itself
+   with the value of a PREFIX of its hex hash digits *)
+Theorem C08_fragment_of_record : forall (et : entry) (j : nat),
+  wf_entry et ->
+  fragment_entry (firstn j (render_body et)) = [] \/
+  exists j', fragment_entry (firstn j (render_body et)) =
+             [ {| e_out := e_out et; e_start := e_start et; e_end := e_end et;
+                  e_mtime := e_mtime et;
+                  e_hash := c_strtoull16 (firstn j' (print_hex_N (e_hash et))) |} ].
+Proof. exact fragment_entry_of_record. Qed.
+Print Assumptions C08_fragment_of_record.
+
+(* ------------------------------------------------------------------------------------------ *)
+(* Safe direction, FULL, for the fixed code — no side condition.  After a crash at any byte k >= 15
+   and any later session, every entry of the loaded table is either the latest completely written
+   record of its output, or the interrupted record [et] (the one following the complete prefix in
+   [es]) with its genuine name/start/end/mtime and a hash read from a prefix of its genuine hex
+   digits.  The command of [et] had completed when its record was being written, so for a generator
+   output (hash ignored) the entry is as good as the genuine one, and for any other output a wrong
+   hash can only make it look out of date. *)
+Theorem C08_safe_direction : forall (es : list entry) (k : nat) (es' : list entry),
+  Forall wf_entry es -> Forall (fits load_buf_size) es ->
+  Forall wf_entry es' -> Forall (fits load_buf_size) es' ->
+  (length log_header <= k)%nat ->
+  exists ents needs,
+    load_log (record_append (firstn k (log_header ++ concat (map render_entry es))) es')
+      = LOk ents needs /\
+    forall y, In y ents ->
+      latest (e_out y) (complete_prefix k es ++ es') = Some y \/
+      (exists et j rest, torn_record k es = Some et /\
+                         es = complete_prefix k es ++ et :: rest /\ y = truncated_hash et j).
+Proof. exact BuildLogProofs.C08_safe_direction. Qed.
+Print Assumptions C08_safe_direction.
+
+(* ------------------------------------------------------------------------------------------ *)
+(* OLD code ([record_append_old]: fopen "ab", no newline before the first append) — kept to
+   document the defect that was fixed.  The torn fragment and the first appended record form ONE
+   line, which always yields exactly one entry ([merged_line_entry]). *)
+Theorem C08_append_after_tear_old : forall (es : list entry) (k : nat) (e' : entry) (tl : list entry),
+  Forall wf_entry es -> Forall (fits load_buf_size) es ->
+  Forall wf_entry (e' :: tl) -> Forall (fits load_buf_size) tl ->
+  (length (torn_fragment k es) + length (render_entry e') <= load_buf_size)%nat ->
+  (length log_header <= k)%nat ->
+  let ents := complete_prefix k es ++ merged_line_entry (torn_fragment k es) e' ++ tl in
+  load_log (record_append_old (firstn k (log_header ++ concat (map render_entry es))) (e' :: tl)) =
+  LOk (last_wins ents)
+      (needs_recompaction_of (N.of_nat (length (last_wins ents))) (N.of_nat (length ents))).
+Proof. exact BuildLogProofs.C08_append_after_tear_old. Qed.
+Print Assumptions C08_append_after_tear_old.
+
 Theorem C08_merged_line_parses : forall (frag : bytes) (e' : entry),
   no_byte 9 (e_out e') = true ->
   exists x, merged_line_entry frag e' = [x] /\ parse_line (frag ++ render_body e') = Some x.
 Proof. exact merged_parse. Qed.
 Print Assumptions C08_merged_line_parses.
 
-(* cut at a record boundary: nothing is merged *)
 Theorem C08_merged_boundary : forall e' : entry, wf_entry e' -> merged_line_entry [] e' = [e'].
 Proof. exact merged_boundary. Qed.
 Print Assumptions C08_merged_boundary.
 
-(* cut inside the first field: the next record survives, only its start time is wrong *)
 Theorem C08_merged_0tabs : forall (frag : bytes) (e' : entry),
   wf_entry e' -> no_byte 9 frag = true ->
   merged_line_entry frag e' =
@@ -92,8 +144,6 @@ Theorem C08_merged_0tabs : forall (frag : bytes) (e' : entry),
 Proof. exact merged_0tabs. Qed.
 Print Assumptions C08_merged_0tabs.
 
-(* cut inside (or right after) the output name: an entry for the name "torn part ++ next start
-   time digits" carrying the torn record's times and mtime and the next END TIME read as hex hash *)
 Theorem C08_merged_3tabs : forall (et : entry) (o1 : bytes) (e' : entry),
   no_byte 9 o1 = true ->
   in_int32 (e_start et) = true -> in_int32 (e_end et) = true -> in_int64 (e_mtime et) = true ->
@@ -107,8 +157,6 @@ Theorem C08_merged_3tabs : forall (et : entry) (o1 : bytes) (e' : entry),
 Proof. exact merged_3tabs. Qed.
 Print Assumptions C08_merged_3tabs.
 
-(* cut inside the hash: an entry for the torn record's REAL output with its genuine times; the
-   hash is the torn hex digits glued to the next record's start time *)
 Theorem C08_merged_4tabs : forall (et : entry) (h1 : bytes) (e' : entry),
   no_byte 9 (e_out et) = true -> no_byte 0 (e_out et) = true -> no_byte 9 h1 = true ->
   in_int32 (e_start et) = true -> in_int32 (e_end et) = true -> in_int64 (e_mtime et) = true ->
@@ -122,13 +170,8 @@ Theorem C08_merged_4tabs : forall (et : entry) (h1 : bytes) (e' : entry),
 Proof. exact merged_4tabs. Qed.
 Print Assumptions C08_merged_4tabs.
 
-(* ------------------------------------------------------------------------------------------ *)
-(* Safe direction, PARTIAL: it needs the side condition [no_collision]: the entry read from the
-   merged line is not a live (output, command hash) pair (or it is the intact next record).
-   Then every live-looking entry of the table is the latest record for its output among the
-   records that are completely on disk (complete_prefix k es ++ tl) — the merged line can make an
-   output look out of date (its record e' is lost) but never up to date. *)
-Theorem C08_safe_direction_partial :
+(* OLD code, partial safe direction: needed the side condition [no_collision]. *)
+Theorem C08_safe_direction_old_partial :
   forall (live : bytes -> N -> bool) (es : list entry) (k : nat) (e' : entry) (tl : list entry),
   Forall wf_entry es -> Forall (fits load_buf_size) es ->
   Forall wf_entry (e' :: tl) -> Forall (fits load_buf_size) tl ->
@@ -137,49 +180,54 @@ Theorem C08_safe_direction_partial :
   (forall g, In g (merged_line_entry (torn_fragment k es) e') ->
              g = e' \/ live (e_out g) (e_hash g) = false) ->
   exists ents needs,
-    load_log (record_append (firstn k (log_header ++ concat (map render_entry es))) (e' :: tl))
+    load_log (record_append_old (firstn k (log_header ++ concat (map render_entry es))) (e' :: tl))
       = LOk ents needs /\
     forall y, In y ents -> live (e_out y) (e_hash y) = true ->
       (y = e' /\ merged_line_entry (torn_fragment k es) e' = [e']) \/
       latest (e_out y) (complete_prefix k es ++ tl) = Some y.
-Proof. exact BuildLogProofs.C08_safe_direction_partial. Qed.
-Print Assumptions C08_safe_direction_partial.
+Proof. exact BuildLogProofs.C08_safe_direction_old_partial. Qed.
+Print Assumptions C08_safe_direction_old_partial.
 
-(* The full statement (without the side condition) is FALSE of the faithful model — and of the real
-   build_log.cc, where the witness was replayed: outputs "gen0" (command hash 0x25) and "gen";
-   "gen"'s record torn right after its name; the next session's first record starts at 0 ms and
-   ends at 25 ms.  The table then holds, for the real output gen0 and with its real command hash,
-   an mtime (200) that was never recorded for gen0 (100 was). *)
-Definition C08_safe_direction_full : Prop :=
+(* OLD code: the statement without the side condition was FALSE (replayed on the real binary before
+   the fix): outputs "gen0" (hash 0x25) and "gen"; "gen"'s record torn right after its name; the next
+   record starts at 0 ms, ends at 25 ms => gen0 gets its real hash with a never-recorded mtime. *)
+Definition C08_safe_direction_old_full : Prop :=
   forall (live : bytes -> N -> bool) (es : list entry) (k : nat) (e' : entry) (tl : list entry),
   Forall wf_entry es -> Forall wf_entry (e' :: tl) -> (length log_header <= k)%nat ->
   forall ents needs,
-    load_log (record_append (firstn k (log_header ++ concat (map render_entry es))) (e' :: tl))
+    load_log (record_append_old (firstn k (log_header ++ concat (map render_entry es))) (e' :: tl))
       = LOk ents needs ->
     forall y, In y ents -> live (e_out y) (e_hash y) = true -> In y (es ++ e' :: tl).
 
-Theorem C08_safe_direction_refuted :
+Theorem C08_safe_direction_old_refuted :
   exists live es k e' tl,
     Forall wf_entry es /\ Forall wf_entry (e' :: tl) /\ (length log_header <= k)%nat /\
     exists ents needs y,
-      load_log (record_append (firstn k (log_header ++ concat (map render_entry es))) (e' :: tl))
+      load_log (record_append_old (firstn k (log_header ++ concat (map render_entry es))) (e' :: tl))
         = LOk ents needs /\
       In y ents /\ live (e_out y) (e_hash y) = true /\
       ~ In y (es ++ e' :: tl) /\
       latest (e_out y) (complete_prefix k es ++ tl) <> Some y /\
       (exists g, latest (e_out y) (es ++ e' :: tl) = Some g /\ e_hash g = e_hash y /\
                  (e_mtime g < e_mtime y)%Z).
-Proof. exact BuildLogProofs.C08_safe_direction_refuted. Qed.
-Print Assumptions C08_safe_direction_refuted.
+Proof. exact BuildLogProofs.C08_safe_direction_old_refuted. Qed.
+Print Assumptions C08_safe_direction_old_refuted.
 
-Theorem C08_safe_direction_full_false : ~ C08_safe_direction_full.
+Theorem C08_safe_direction_old_full_false : ~ C08_safe_direction_old_full.
 Proof.
   intros Hfull.
-  destruct BuildLogProofs.C08_safe_direction_refuted
+  destruct BuildLogProofs.C08_safe_direction_old_refuted
     as (live & es & k & e' & tl & Hw & Hw' & Hk & ents & needs & y & Hl & Hy & Hlive & Hnot & _).
   exact (Hnot (Hfull live es k e' tl Hw Hw' Hk ents needs Hl y Hy Hlive)).
 Qed.
-Print Assumptions C08_safe_direction_full_false.
+Print Assumptions C08_safe_direction_old_full_false.
+
+(* the same crash + append with the fixed code: gen0 keeps its genuine record *)
+Example C08_old_witness_fixed :
+  load_log (record_append
+              (firstn wit_k (log_header ++ concat (map render_entry [wit_gen0; wit_gen]))) [wit_foo])
+  = LOk [wit_gen0; wit_foo] false.
+Proof. exact BuildLogProofs.C08_old_witness_fixed. Qed.
 
 (* ------------------------------------------------------------------------------------------ *)
 (* Any number of sessions appending to the same log (the first one creates it and writes the
@@ -299,26 +347,45 @@ Example C08_torn_nonvacuous :
   load_log (firstn 0 ex_file) = LOk [] false.
 Proof. repeat split; vm_compute; reflexivity. Qed.
 
-(* ... and a later session appends ex_lib: the torn "260\t300\t17000000003" and "7\t9\t..." make
-   one line whose third field is glued: an entry named "9" with hash 0x1700000000423456789
-   clamped to ULLONG_MAX ... whatever it is, the model says exactly which: *)
+(* ... and a later session appends ex_lib.  Fixed code: the fragment "260\t300\t17000000003" is
+   terminated, has 2 tabs, is skipped; ex_lib is read intact. *)
 Example C08_append_after_tear_nonvacuous :
   (length log_header <= 120)%nat /\
+  torn_record 120 ex_log = Some ex_a2 /\
+  fragment_entry (torn_fragment 120 ex_log) = [] /\
+  load_log (record_append (firstn 120 ex_file) [ex_lib]) = LOk [ex_a1; ex_gen; ex_lib] false.
+Proof. split; [vm_compute; lia|]. repeat split; vm_compute; reflexivity. Qed.
+
+(* cut inside the hash of the third record (byte 145: "...\t12345" of "123456789abcdef"): the
+   interrupted record itself with the truncated hash 0x12345 *)
+Example C08_safe_direction_nonvacuous :
+  fragment_entry (torn_fragment 145 ex_log) = [truncated_hash ex_a2 5] /\
+  load_log (record_append (firstn 145 ex_file) [ex_lib]) =
+  LOk [truncated_hash ex_a2 5; ex_gen; ex_lib] false /\
+  e_hash (truncated_hash ex_a2 5) = 74565.
+Proof. repeat split; vm_compute; reflexivity. Qed.
+
+(* a log torn after 14 bytes ("# ninja log v7") is healed by the next session's newline *)
+Example C08_torn_header_healed :
+  load_log (record_append (firstn 14 ex_file) [ex_lib]) = LOk [ex_lib] false /\
+  load_log (record_append (firstn 13 ex_file) [ex_lib]) = LDiscard true true.
+Proof. split; vm_compute; reflexivity. Qed.
+
+(* OLD code on the same tear: one merged line, an entry named "9" *)
+Example C08_append_after_tear_old_nonvacuous :
   (length (torn_fragment 120 ex_log) + length (render_entry ex_lib) <= load_buf_size)%nat /\
-  load_log (record_append (firstn 120 ex_file) [ex_lib]) =
+  load_log (record_append_old (firstn 120 ex_file) [ex_lib]) =
   LOk (last_wins ([ex_a1; ex_gen] ++ merged_line_entry (torn_fragment 120 ex_log) ex_lib)) false /\
   merged_line_entry (torn_fragment 120 ex_log) ex_lib =
   [ {| e_out := [57]; e_start := 260; e_end := 300; e_mtime := 170000000037;
        e_hash := 18446744073709551615 |} ].
 Proof.
-  split; [vm_compute; lia|].
   split; [replace (length (torn_fragment 120 ex_log) + length (render_entry ex_lib))%nat
             with 68%nat by (vm_compute; reflexivity); unfold load_buf_size; lia|].
   split; vm_compute; reflexivity.
 Qed.
 
-(* the side condition of the safe-direction theorem is satisfiable: here nothing named "9" is live *)
-Example C08_safe_direction_partial_nonvacuous :
+Example C08_safe_direction_old_partial_nonvacuous :
   forall g, In g (merged_line_entry (torn_fragment 120 ex_log) ex_lib) ->
     g = ex_lib \/
     (fun (out : bytes) (_ : N) => negb (bytes_eqb out [57])) (e_out g) (e_hash g) = false.
